@@ -4,11 +4,11 @@ use crate::gen::{self, Content};
 use crate::refimpl::{self, Scheme, RG, SCHEMES};
 use crate::suite::*;
 use crate::{for_both, hx, Ctx, Tier};
-use blsful::inner_types::Group;
+use blsful::inner_types::{Field, Group};
 use blsful::*;
 use serde_json::json;
 
-pub const RULE: &str = "message lengths (as C11) x contents {random, all-zero; thorough: + all-0xff, counter} x identifiers {empty, 1 byte, 32 bytes, 1 KiB} x 3 schemes x 2 groups x fresh keys. Honest: decrypt with sk.sign(scheme,id) == msg; with Signature::from_shares over 2-of-3 and 3-of-5 splits (Basic/PoP) == msg; decode(encode(ct)) opens; the REFERENCE opens the library's ciphertext. Negative: signature over another identifier, by another key, under each other scheme (same id), identity signature, the signature point re-labelled -> None. Tamper (designated short-message ciphertext per cell: EXHAUSTIVE, others sampled): every single-bit flip of u (decode-or-None), v, and of the authenticated prefix w[0 .. prefix+len) -> None; flips and extensions inside the zero padding w[prefix+len ..] and truncations of w at every length -> original message or None, never another message. Distinct by (suite,scheme,variant,ciphertext bytes); non-trivial = ciphertext decodes and the final r*P == U test decides. History clusters (1 quick / 6 thorough per group): the ciphertext of every scheme and its copies (three labels, u+G, a bit of v) opened with the signature of every scheme over the identifier, a signature over another identifier and a foreign key's signature, asked in ordered pairs (a,b) as a,b,b,a; every answer must equal the answer the question has on its own.";
+pub const RULE: &str = "message lengths (as C11) x contents {random, all-zero, varint-like (0xff x 8, 0x01, .. at lengths 31, 100, 127, 16383); thorough: + all-0xff, counter} x identifiers {empty, 1 byte, 32 bytes, 1 KiB} x 3 schemes x 2 groups x fresh keys. Honest: decrypt with sk.sign(scheme,id) == msg; with Signature::from_shares over 2-of-3 and 3-of-5 splits (Basic/PoP) == msg; decode(encode(ct)) opens; the REFERENCE opens the library's ciphertext. Negative: signature over another identifier, by another key (independent, and the related keys -k, k+1, k-1, 2k, 1/k), under each other scheme (same id), identity signature, the signature point re-labelled -> None. Tamper (designated short-message ciphertext per cell: EXHAUSTIVE, others sampled): every single-bit flip of u (decode-or-None), v, and of the authenticated prefix w[0 .. prefix+len) -> None; flips and extensions inside the zero padding w[prefix+len ..] and truncations of w at every length -> original message or None, never another message. Distinct by (suite,scheme,variant,ciphertext bytes); non-trivial = ciphertext decodes and the final r*P == U test decides. History clusters (1 quick / 6 thorough per group): the ciphertext of every scheme and its copies (three labels, u+G, a bit of v) opened with the signature of every scheme over the identifier, a signature over another identifier and a foreign key's signature, asked in ordered pairs (a,b) as a,b,b,a; every answer must equal the answer the question has on its own. Crafted prefixes: ciphertexts sealed by the reference around payloads that start with extreme or malformed length prefixes (2^7-1 .. 2^64-10..2^64-1, 2^64, 19-byte numbers, 20 continuation bytes, non-canonical zero, declared length = available / available + 1), opened with the right signature under the abort monitor: the result must be nothing or exactly the message the payload denotes.";
 
 pub fn run(ctx: &mut Ctx) {
     for_both!(run_suite, ctx);
@@ -46,10 +46,15 @@ fn run_suite<C: Suite>(ctx: &mut Ctx) {
         }
         // contents: random, and all-zero (leading 0x00 bytes next to the length prefix, trailing
         // 0x00 bytes next to the padding); thorough adds all-0xff and a counter
-        let contents: &[Content] = ctx.tier.pick(&[Content::Random, Content::Zero][..], &gen::CONTENTS[..]);
+        let contents: &[Content] = ctx.tier.pick(&[Content::Random, Content::Zero, Content::VarintLike][..], &[Content::Zero, Content::Ones, Content::Counter, Content::Random, Content::VarintLike][..]);
         for (li, len) in lengths(ctx.tier).into_iter().enumerate() {
             for &content in contents {
                 if len == 0 && !matches!(content, Content::Random) {
+                    continue;
+                }
+                // the varint-like content only where a one-bit change of the prefix makes it run on
+                // into the message (prefix bytes with the top bit clear: 16..127, 2048..16383)
+                if matches!(content, Content::VarintLike) && !([31usize, 100, 127, 16383].contains(&len)) {
                     continue;
                 }
                 g += 1;
@@ -60,6 +65,13 @@ fn run_suite<C: Suite>(ctx: &mut Ctx) {
                 one::<C>(ctx, g, scheme, len, li, exhaustive, content);
             }
         }
+    }
+    // crafted length prefixes under a valid time-lock header (what a change of the payload bytes
+    // covering the length prefix can turn into, taken to the extremes)
+    ctx.require(&format!("{n}/crafted-prefix"));
+    g += 1;
+    if ctx.mine(g) {
+        crafted_prefixes::<C>(ctx, g);
     }
     ctx.require(&format!("{n}/history"));
     for i in 0..ctx.tier.pick(1, 6) {
@@ -158,6 +170,16 @@ fn one<C: Suite>(ctx: &mut Ctx, g: u64, scheme: Scheme, len: usize, li: usize, e
     }
     let other = sk_from_rs::<C>(&gen::random_scalar(&mut rng));
     must_none(ctx, "wrong-key", "other key", &other.sign(ls_, &id).unwrap());
+    // keys algebraically related to the right one
+    {
+        use crate::refimpl::RS;
+        let inv: Option<RS> = Option::from(k.invert());
+        for (rn, rk) in [("-k", -k), ("k+1", k + RS::ONE), ("k-1", k - RS::ONE), ("2k", k + k), ("1/k", inv.unwrap_or(RS::ONE))] {
+            if rk != k && !bool::from(rk.is_zero()) {
+                must_none(ctx, "wrong-key", &format!("signature by the related key {rn}"), &sk_from_rs::<C>(&rk).sign(ls_, &id).unwrap());
+            }
+        }
+    }
     for o in scheme.others() {
         must_none(ctx, "wrong-scheme", &format!("honest {} signature over id", o.name()), &sk.sign(lscheme(o), &id).unwrap());
         must_none(ctx, "wrong-scheme", &format!("own point labelled {}", o.name()), &wrap_sig::<C>(o, *sig.as_raw_value()));
@@ -208,6 +230,8 @@ fn one<C: Suite>(ctx: &mut Ctx, g: u64, scheme: Scheme, len: usize, li: usize, e
         (0..wbits_total).collect()
     } else {
         let mut v: Vec<usize> = (0..ctx.tier.pick(12, 32)).map(|_| gen::below(&mut rng, auth * 8)).collect();
+        // every bit of the length prefix, always
+        v.extend(0..used * 8);
         v.push(0);
         v.push(auth * 8 - 1);
         if auth * 8 < wbits_total {
@@ -339,4 +363,55 @@ fn history_cluster<C: Suite>(ctx: &mut Ctx, g: u64, i: usize) {
     let mut cid = k.to_be_bytes().to_vec();
     cid.extend_from_slice(&msg);
     sandwich_pairs(ctx, "C13", &format!("{n}/history"), "copies-and-signatures", &cid, &d, &qs, &pairs);
+}
+
+/// Ciphertexts sealed by the REFERENCE around payloads that start with an extreme or malformed
+/// length prefix (2^7-1 .. 2^64-1, 2^64, 19-byte numbers, 20 continuation bytes, a non-canonical
+/// zero; alone and followed by 40 bytes; declared length = available, available + 1), opened with
+/// the right signature: the result must be nothing, or exactly the message the payload denotes.
+fn crafted_prefixes<C: Suite>(ctx: &mut Ctx, g: u64) {
+    use crate::refimpl::RC;
+    let mut rng = ctx.rng(g);
+    let n = C::NAME;
+    let k = gen::random_scalar(&mut rng);
+    let sk = sk_from_rs::<C>(&k);
+    let pk = super::util::rpk_of::<C>(&sk.public_key());
+    let mut frames: Vec<(String, Vec<u8>)> = Vec::new();
+    for (vn, vb) in super::c17::hostile_varints() {
+        let mut f = vb.clone();
+        frames.push((format!("{vn}/alone"), f.clone()));
+        f.extend_from_slice(&[0x42u8; 40]);
+        frames.push((format!("{vn}/+40"), f));
+    }
+    for m in (0..10u64).map(|i| u64::MAX - i) {
+        let mut f = refimpl::leb128(m as u128);
+        f.extend_from_slice(&[0x17u8; 24]);
+        frames.push((format!("2^64-{}", u64::MAX - m + 1), f));
+    }
+    for len in [1usize, 5, 32, 64] {
+        let mut f = refimpl::leb128(len as u128 + 1);
+        f.extend(vec![0x42u8; len]);
+        frames.push((format!("declared>available/{len}"), f));
+        let mut f = refimpl::leb128(len as u128);
+        f.extend(vec![0x42u8; len]);
+        frames.push((format!("declared==available/{len}"), f));
+    }
+    for s in SCHEMES {
+        let dst = <C::R as RC>::dst(s);
+        for (fname, frame) in &frames {
+            let id = b"crafted-prefix-id".to_vec();
+            let idh: Vec<u8> = if s == Scheme::Aug { let mut m = pk_bytes(&sk.public_key()); m.extend_from_slice(&id); m } else { id.clone() };
+            let alpha = gen::random_scalar(&mut rng);
+            let denotes = refimpl::unframe(frame);
+            let guess = denotes.clone().unwrap_or_default();
+            let tl = refimpl::timelock_seal_frame::<C::R>(pk, frame, &guess, &idh, dst, &alpha);
+            let t = TimeCryptCiphertext::<C> { u: super::util::lp::<C>(tl.u), v: tl.v, w: tl.w.clone(), scheme: lscheme(s) };
+            let sig = wrap_sig::<C>(s, super::util::ls::<C>(refimpl::core_sign::<C::R>(&k, &idh, dst)));
+            let d = || json!({"what":"time-lock ciphertext sealed by the reference around a payload with a crafted length prefix","frame":fname,"frame_bytes":hx(frame),"scheme":s.name(),"suite":n});
+            let Some(p) = ctx.guard("TimeCryptCiphertext::decrypt", d, || ct_some(t.decrypt(&sig))) else { continue };
+            let ok = p.is_none() || (denotes.is_some() && p == denotes);
+            ctx.expect(ok, &format!("C13/crafted-prefix-yields-other-message/{n}/{}", s.name()), || { let mut x = d(); x["returned"] = json!(p.as_ref().map(|m| hx(m))); x["payload_denotes"] = json!(denotes.as_ref().map(|m| hx(m))); x });
+            ctx.hit(&format!("{n}/crafted-prefix"), &[fname.as_bytes(), &[s.wire()]]);
+        }
+    }
 }
